@@ -88,6 +88,15 @@ Proof.
     + eapply IH; eauto.
 Qed.
 
+Lemma chunks_of_exact_chunks (n : nat) (R : list A) flat : 0 < n -> chunks_of n R flat -> exact_chunks n R flat.
+Proof.
+  intros Hn H. split; [exact (chunks_of_concat n R flat H)|]. split.
+  - pose proof (chunks_of_nonempty n R flat Hn H) as H1. pose proof (chunks_of_le n R flat H) as H2.
+    rewrite Forall_forall in *. intros c Hc. split; [apply H1 | apply H2]; exact Hc.
+  - exact (chunks_of_exact n R flat H).
+Qed.
+
+
 (* out-of-fuel marker / values / errors of an output stream *)
 Definition ovals {X} (l : list (oitem X)) : list X :=
   flat_map (fun x => match x with OVal v => [v] | _ => [] end) l.
